@@ -2,26 +2,42 @@ package main
 
 import (
 	"fmt"
-	"strings"
 	"time"
 
 	"github.com/VolantMQ/vlapi/mqttp"
 )
 
 func init() {
+	// experiment: take-over of a connection whose client has stopped reading (the broker's writer is blocked)
 	subcmds["dbg"] = func(args []string) int {
-		au := &progAuth{acl: func(_, _, topic string, write bool) bool { return !strings.HasPrefix(topic, "no/") }}
-		b, _ := NewBroker(BrokerOpts{Auth: []*progAuth{au}})
-		c := b.Dial()
-		_, err := c.Connect(ConnectOpts{ID: "a", Ver: mqttp.ProtocolV50, Clean: true})
-		fmt.Println(err)
-		_ = c.Send(mkSubscribe(mqttp.ProtocolV50, 9, []string{"no/x", "ok/x"}, []byte{1, 1}))
-		time.Sleep(100 * time.Millisecond)
-		tmp := make([]byte, 100)
-		n, e := c.conn.Read(tmp)
-		fmt.Println(tmp[:n], e)
-		p, _, err := mqttp.Decode(mqttp.ProtocolV50, tmp[:n])
-		fmt.Println(p, err)
+		b, _ := NewBroker(BrokerOpts{Preempt: true})
+		c := b.DialCap(64)
+		if _, err := c.Connect(ConnectOpts{ID: "a", Ver: mqttp.ProtocolV311, Clean: true}); err != nil {
+			fmt.Println("connect", err)
+			return 1
+		}
+		_ = c.Send(mkSubscribe(mqttp.ProtocolV311, 9, []string{"t"}, []byte{0}))
+		if _, err := c.Recv(2 * time.Second); err != nil {
+			fmt.Println("suback", err)
+		}
+		// the client stops reading now
+		pc := b.Dial()
+		_, _ = pc.Connect(ConnectOpts{ID: "p", Ver: mqttp.ProtocolV311, Clean: true})
+		pa := pc.Auto(false)
+		for i := 0; i < 50; i++ {
+			_ = pa.SendL(mkPublish(mqttp.ProtocolV311, "t", make([]byte, 100), 0, false, 0))
+		}
+		time.Sleep(200 * time.Millisecond)
+		c2 := b.Dial()
+		t0 := time.Now()
+		done := make(chan error, 1)
+		go func() { _, err := c2.Connect(ConnectOpts{ID: "a", Ver: mqttp.ProtocolV311, Clean: true}); done <- err }()
+		select {
+		case err := <-done:
+			fmt.Println("second CONNECT answered after", time.Since(t0), err)
+		case <-time.After(8 * time.Second):
+			fmt.Println("second CONNECT NOT answered within 8 s")
+		}
 		return 0
 	}
 }
